@@ -1,6 +1,7 @@
 #!/bin/bash
 # seed.sh confirm <seeddir> <pkgdir> [-run pattern]  : verify demo fails with the patch and passes without, in a scratch worktree
 # seed.sh detect <patch.diff> <Cxx> <tier>            : apply the patch to /repo, run the check, undo
+# seed.sh detectwt <patch.diff> <Cxx> <tier>          : same against a scratch worktree (does not touch /repo or evidence)
 set -u
 export GOFLAGS=-mod=mod GOPROXY=off GOSUMDB=off GOTOOLCHAIN=local
 cmd=$1; shift
@@ -22,6 +23,14 @@ elif [ "$cmd" = suite ]; then
   wt=$(mktemp -d /tmp/seedwt.XXXX); rmdir $wt
   git -C /repo worktree add -q $wt HEAD || exit 2
   (cd $wt && git apply $patch && go test -vet=off -count=1 ./tars/... 2>&1 | grep -v "no test files\|^printNode\|^result\|^variance" | grep -v "^ok" | head -20)
+  git -C /repo worktree remove --force $wt
+elif [ "$cmd" = detectwt ]; then
+  # like detect, but against a scratch worktree (VERIF_REPO) and without rewriting evidence: safe while other checks use /repo
+  patch=$1; prop=$2; tier=$3
+  wt=$(mktemp -d /tmp/seedwt.XXXX); rmdir $wt
+  git -C /repo worktree add -q $wt HEAD || exit 2
+  (cd $wt && git apply $patch) || { echo "PATCH DOES NOT APPLY"; git -C /repo worktree remove --force $wt; exit 2; }
+  (cd /verif && VERIF_REPO=$wt VERIF_NOEVIDENCE=1 timeout 3000 ./check $prop $tier 2>&1 | grep -v "^Verif\|^loaded\|^PREPARE" | tail -8)
   git -C /repo worktree remove --force $wt
 elif [ "$cmd" = detect ]; then
   patch=$1; prop=$2; tier=$3
